@@ -145,7 +145,48 @@ func checkC01(w *core.W, c *ParseCase) {
 	}
 	if bad := incomplete(sc.Expression); bad != "" {
 		viol("incomplete-tree:"+strings.SplitN(bad, " ", 2)[0], "complete tree", bad, "error-free tree is incomplete")
+		return
 	}
+	// "the whole input was consumed": every token of the text has its place in the tree (names and literals one each,
+	// brackets two, lists their commas, operators one, ?: two, a member access its dot and its name). A token that was
+	// skipped on the way leaves the count short.
+	if lr.Err == nil && !lr.Open && len(src) <= 4096 {
+		inText := len(lr.Toks)
+		if inText > 0 && lr.Toks[inText-1].Kind == ref.TEOF {
+			inText--
+		}
+		if inTree := tokensAccountedFor(sc.Expression); inTree != inText {
+			viol("tokens-not-in-tree", fmt.Sprintf("%d tokens accounted for", inText), inTree, "error-free tree does not account for every token of the text")
+		}
+		w.Count("token_accounting_checked")
+	}
+}
+
+// tokensAccountedFor counts the tokens a tree stands for.
+func tokensAccountedFor(e formula.Expression) int {
+	n := 0
+	obs.Walk(e, func(x formula.Expression) {
+		switch t := x.(type) {
+		case *formula.Identifier, *formula.LiteralExpression, *formula.PrefixUnaryExpression, *formula.TypeOfExpression, *formula.BinaryExpression:
+			n++
+		case *formula.ParenthesizedExpression, *formula.ConditionalExpression, *formula.SelectorExpression:
+			n += 2
+		case *formula.ArrayLiteralExpression:
+			n += 2
+			if t.Elements != nil && t.Elements.Len() > 1 {
+				n += t.Elements.Len() - 1
+			}
+		case *formula.CallExpression:
+			n += 2
+			if t.Arguments != nil && t.Arguments.Len() > 1 {
+				n += t.Arguments.Len() - 1
+			}
+			if t.DotDotDotToken != nil {
+				n++
+			}
+		}
+	})
+	return n
 }
 
 // incomplete walks an error-free tree and reports the first missing piece.
